@@ -68,6 +68,7 @@ def floors(tier):
     return {"monitors": {NONE_IFF: 50000, ROUTE: 20000},
             "counters": {"history_call:dist_cut": 2000, "history_call:sub_network": 1000, "history_call:all_pairs_cut": 1000,
                          "path_request_with_output_dict": 5000, "path_request_with_cut": 3000,
+                         "network_prepared_with_a_finite_radius": 300,
                          "returned_route_modified_by_the_caller": 5000,
                          "history_call:failing_request": 1000},
             "classes": {"self_loop": 200, "parallel_edges": 200, "parallel_diff_weight": 100, "zero_weight": 200,
@@ -280,6 +281,12 @@ def run_case(case, ctx):
     elif use_dict == 2 and case["ord"] % 2 == 0:
         M.call(net.prepare, 1e300, False)
         shared = net.DISTANCES if isinstance(getattr(net, "DISTANCES", None), dict) else shared
+    elif use_dict == 2 and finite and not big:
+        # the network was prepared with a FINITE radius (the table then holds the near pairs only); the path requests
+        # that follow -- some with their own, larger cut-off -- must not take the table for complete
+        M.call(net.prepare, finite[len(finite) // 3] + 0.25 * (case["ord"] % 4 == 1), False)
+        ctx.count("network_prepared_with_a_finite_radius")
+        use_dict = 0
     for i, (s, t) in enumerate(pairs):
         # call history on the same Network object: other routing requests (bounded, target-less, from the same or
         # another source) are made between the judged path requests; whatever labels they leave must not be reused
